@@ -26,6 +26,8 @@ BER = "kaira/metrics/signal/ber.py"
 BLER = "kaira/metrics/signal/bler.py"
 BM = "kaira/benchmarks/metrics.py"
 AN = "kaira/channels/analog.py"
+LINF = "kaira/models/fec/encoders/linear_block_code.py"
+SYSF = "kaira/models/fec/encoders/systematic_linear_block_code.py"
 DG = "kaira/channels/digital.py"
 PW = "kaira/constraints/power.py"
 SG = "kaira/constraints/signal.py"
@@ -236,6 +238,31 @@ MUTANTS = {
         ("array form calls wrong scalar", "kaira/modulations/utils.py", "        binary[i] = gray_to_binary(int(num))", "        binary[i] = binary_to_gray(int(num))", "violation", "GRAY-UTIL"),
         ("twin: qpsk label floats as ints", PSK, "                [0.0, 1.0],  # Fourth quadrant", "                [0, 1],  # Fourth quadrant", "silent"),
         ("twin: normalisation literal form", PSK, "        self._normalization = 1 / (2**0.5) if normalize else 1.0\n\n        # QPSK mapping table with Gray coding", "        self._normalization = 0.5**0.5 if normalize else 1.0\n\n        # QPSK mapping table with Gray coding", "silent"),
+    ],
+    "C01": [
+        ("encode with transposed right inverse", LINF, "return torch.matmul(reshaped_x, self.generator_matrix.to(reshaped_x.dtype)) % 2", "return torch.matmul(reshaped_x, self.generator_right_inverse.t().to(reshaped_x.dtype)) % 2", "violation", "ENCODE-FORM"),
+        ("syndrome without transpose", LINF, "return torch.matmul(reshaped_x, self.check_matrix.transpose(0, 1).to(reshaped_x.dtype)) % 2", "return torch.matmul(reshaped_x, self.check_matrix.to(reshaped_x.dtype)) % 2", "violation", "ENCODE-FORM"),
+        ("encode not reduced mod 2", LINF, "return torch.matmul(reshaped_x, self.generator_matrix.to(reshaped_x.dtype)) % 2", "return torch.matmul(reshaped_x, self.generator_matrix.to(reshaped_x.dtype))", "violation", "ENCODE-FORM"),
+        ("systematic gather permutation", SYSF, "            # Place information bits directly\n            codewords[..., self.information_set] = reshaped_x\n\n            # Place parity bits\n            codewords[..., self.parity_set] = parity_bits\n", "            perm = torch.cat([self.information_set, self.parity_set])\n            codewords = torch.cat([reshaped_x, parity_bits], dim=-1)[..., perm]\n", "violation", "SYSTEMATIC"),
+        ("systematic value-keyed fast path", SYSF, "            # Create output tensor of the right shape\n            batch_shape = reshaped_x.shape[:-1]", "            if int(self.information_set[0]) == 0 and int(self.information_set[-1]) == self._dimension - 1:\n                return torch.cat([reshaped_x, parity_bits], dim=-1)\n            batch_shape = reshaped_x.shape[:-1]", "violation", "SYSTEMATIC"),
+        ("cyclic check matrix fixed layout", "kaira/models/fec/encoders/cyclic_code.py", "        check_matrix[:, self.parity_set] = torch.eye(self._redundancy, dtype=torch.float32, device=self.generator_matrix.device)\n        check_matrix[:, self.information_set] = self.parity_submatrix.T.to(torch.float32)\n        self._check_matrix = check_matrix", "        check_matrix[:, : self._redundancy] = torch.eye(self._redundancy, dtype=torch.float32, device=self.generator_matrix.device)\n        check_matrix[:, self._redundancy :] = self.parity_submatrix.T.to(torch.float32)\n        self._check_matrix = check_matrix", "violation", "CHECK-LAYOUT"),
+        ("cyclic dead string comparison", "kaira/models/fec/encoders/cyclic_code.py", "        self._check_matrix = check_matrix\n", "        self._check_matrix = check_matrix if self.information_set == \"left\" else check_matrix\n", "violation", "T-STR"),
+        ("null space constant fallback", LINF, "    reduced, transform, pivots = _gf2_row_reduce(matrix)\n    free_columns", "    reduced, transform, pivots = _gf2_row_reduce(matrix)\n    if len(pivots) < k:\n        return torch.zeros((n - k, n), dtype=matrix.dtype)\n    free_columns", "violation"),
+        ("ldpc generator cut at m", "kaira/models/fec/encoders/ldpc_code.py", "generator_matrix = row_reduction(check_matrix_eye[rank:, check_matrix.shape[1] :])[0]", "generator_matrix = row_reduction(check_matrix_eye[check_matrix.shape[1] :, check_matrix.shape[1] :])[0]", "violation", "VERIFIED-RETURN"),
+        ("rs re-registers left generator", "kaira/models/fec/encoders/reed_solomon_code.py", "        super().__init__(parity_submatrix=parity_submatrix, information_set=information_set, dtype=dtype, **kwargs)\n", "        super().__init__(parity_submatrix=parity_submatrix, information_set=information_set, dtype=dtype, **kwargs)\n        self.register_buffer(\"generator_matrix\", generator_matrix)\n", "violation", "INFO-SET"),
+        ("shape keyed special case in encoder", LINF, "        def encode_fn(reshaped_x):\n", "        if x.shape[-1] == 7:\n            return x\n\n        def encode_fn(reshaped_x):\n", "violation"),
+        ("twin: matmul operator", LINF, "return torch.matmul(reshaped_x, self.generator_matrix.to(reshaped_x.dtype)) % 2", "return reshaped_x @ self.generator_matrix.to(reshaped_x.dtype) % 2", "silent"),
+        ("twin: systematic store order", SYSF, "            # Place information bits directly\n            codewords[..., self.information_set] = reshaped_x\n\n            # Place parity bits\n            codewords[..., self.parity_set] = parity_bits\n", "            codewords[..., self.parity_set] = parity_bits\n            codewords[..., self.information_set] = reshaped_x\n", "silent"),
+    ],
+    "C04": [
+        ("right inverse rounded pseudo-inverse", LINF, "    reduced, transform, pivots = _gf2_row_reduce(matrix)\n    if len(pivots) < k:\n        raise ValueError", "    pseudo_inv = torch.linalg.pinv(matrix.float())\n    result_binary = (torch.matmul(matrix.float(), pseudo_inv).round() % 2).type(matrix.dtype)\n    if torch.allclose(result_binary, torch.eye(k, dtype=matrix.dtype)):\n        return (pseudo_inv.round() % 2).type(matrix.dtype)\n    reduced, transform, pivots = _gf2_row_reduce(matrix)\n    if len(pivots) < k:\n        raise ValueError", "violation", "VERIFIED-RETURN"),
+        ("right inverse shape-keyed constant", LINF, "    reduced, transform, pivots = _gf2_row_reduce(matrix)\n    if len(pivots) < k:\n        raise ValueError", "    if k == 3 and n == 7:\n        right_inv = torch.zeros((7, 3), dtype=matrix.dtype)\n        right_inv[0, 0] = 1\n        return right_inv\n    reduced, transform, pivots = _gf2_row_reduce(matrix)\n    if len(pivots) < k:\n        raise ValueError", "violation"),
+        ("right inverse fallback", LINF, "        raise ValueError(\"The generator matrix does not have full row rank over GF(2); it has no right inverse\")", "        return torch.zeros((n, k), dtype=matrix.dtype)", "violation"),
+        ("inverse uses generator transpose", LINF, "return torch.matmul(reshaped_x, self.generator_right_inverse.to(reshaped_x.dtype)) % 2", "return torch.matmul(reshaped_x, self.generator_matrix.t().to(reshaped_x.dtype)) % 2", "violation", "INVERSE-FORM"),
+        ("inverse block size k", LINF, "        decoded = apply_blockwise(x, self.code_length, decode_fn)", "        decoded = apply_blockwise(x, self.code_dimension, decode_fn)", "violation", "INVERSE-FORM"),
+        ("hamming single block reshape", "kaira/models/fec/encoders/hamming_code.py", "decoded = decoded.reshape(*original_dims, -1)", "decoded = decoded.reshape(*original_dims, self.code_dimension)", "violation", "BLOCKWISE"),
+        ("rm 2-D only", "kaira/models/fec/encoders/reed_muller_code.py", "        y2d = x.reshape(-1, self.code_length)\n", "        if x.dim() == 1:\n            y2d = x.unsqueeze(0)\n        else:\n            y2d = x\n", "violation", "BLOCKWISE"),
+        ("twin: view instead of reshape in blockwise", "kaira/models/fec/utils.py", "        return result.view(*leading_dims, -1)", "        return result.reshape(*leading_dims, -1)", "silent"),
     ],
 }
 
